@@ -459,9 +459,9 @@ def fix_too_many_blank_lines(source: str) -> str:
     # At module level, remove all above 2 blank lines
     source = re.sub(r"(\n\s*){3,}\n", "\n" * 3, source)
 
-    # At EOF, remove all newlines and whitespace above 1. A line break that follows a backslash is
-    # part of a line continuation, it takes the next (blank) line to end the statement.
-    source = re.sub(r"(?<!\\)(\n\s*){2,}\Z", "\n", source)
+    # At EOF, remove all newlines and whitespace above 1. A line break (\n or \r\n) that follows a
+    # backslash is part of a line continuation, it takes the next (blank) line to end the statement.
+    source = re.sub(r"(?<!\\)(?<!\\\r)(\n\s*){2,}\Z", "\n", source)
 
     # At non-module (any indented) level, remove all newlines above 1, preserve indent
     source = re.sub(r"(\n\s*){2,}(\n\s+)(?=[^\n\s])", r"\n\g<2>", source)
